@@ -251,6 +251,69 @@ def write_evidence(pid, tier, seed, mod, tot, wall, violations, extra=None):
         json.dump(ev, f, indent=1, default=str)
 
 
+def run_fuzz_supplement(pid, mod, tier, seed, tot):
+    """atheris / libFuzzer campaign over the module's own strategy and oracle (vf/fuzz.py), sharded over processes with
+    different libFuzzer seeds.  A violation found there is re-checked here, without atheris, before it is believed."""
+    cfg = (getattr(mod, "FUZZ", None) or {}).get(tier)
+    if not cfg:
+        return None
+    import subprocess
+    import tempfile
+    import shutil
+    deps = os.path.join(VERIF, ".deps")
+    probe = subprocess.run([sys.executable, "-c", "import sys; sys.path.append(%r); import atheris" % deps], capture_output=True)
+    if probe.returncode != 0:
+        return {"skipped": "atheris is not importable (run ./setup.sh)"}
+    shards = min(NPROC, cfg.get("shards", NPROC))
+    base = tempfile.mkdtemp(prefix="vffuzz.")
+    t0 = time.time()
+    procs = []
+    env = dict(os.environ, PYTHONPATH=VERIF + os.pathsep + os.environ.get("PYTHONPATH", ""))
+    for k in range(shards):
+        od = os.path.join(base, "s%d" % k)
+        lf_seed = mix_seed(seed, pid + ":fuzz", k) % (2 ** 31 - 1) or 1
+        procs.append((od, subprocess.Popen([sys.executable, "-W", "ignore", "-m", "vf.fuzz", pid, tier, str(lf_seed), str(cfg["runs"]), od],
+                                           stdout=subprocess.DEVNULL, stderr=subprocess.DEVNULL, env=env, cwd=VERIF)))
+    info = {"engine": "atheris (libFuzzer) driving the property's Hypothesis strategy through fuzz_one_input; oracle inside the target",
+            "shards": shards, "runs_per_shard": cfg["runs"], "evaluations": 0, "executed_units": 0, "distinct_nontrivial": 0,
+            "status": Counter(), "labels": Counter(), "known": Counter(), "unreproduced": 0, "incomplete_shards": 0}
+    limit = cfg.get("wall", 1800)
+    for od, pr in procs:
+        try:
+            pr.wait(timeout=max(5, limit - (time.time() - t0)))
+        except subprocess.TimeoutExpired:
+            pr.kill()
+            pr.wait()
+            info["incomplete_shards"] += 1
+        try:
+            st = json.load(open(os.path.join(od, "stats.json")))
+        except Exception:
+            info["incomplete_shards"] += 1
+            continue
+        info["evaluations"] += st["evaluations"]
+        info["executed_units"] += st.get("executed_units", 0)
+        info["distinct_nontrivial"] += st.get("nontrivial", 0)
+        info["status"].update(st["status"])
+        info["labels"].update(st["labels"])
+        info["known"].update(st["known"])
+        if "sample" in st and "sample" not in info:
+            info["sample"] = st["sample"]
+        vp = os.path.join(od, "violation.json")
+        if os.path.exists(vp):
+            case = json.load(open(vp))["case"]
+            out = mod.check(case)
+            if out.status == "violation":
+                tot["failures"].append((len(json.dumps(case, default=str)), case, out.detail))
+                tot["failures"].sort(key=lambda x: x[0])
+            else:
+                info["unreproduced"] += 1
+    shutil.rmtree(base, ignore_errors=True)
+    for k in ("status", "labels", "known"):
+        info[k] = dict(info[k])
+    info["wall_s"] = round(time.time() - t0, 1)
+    return info
+
+
 def run(pid, tier="quick", seed=1, replay=None):
     t0 = time.time()
     mod = load_module(pid)
@@ -336,6 +399,8 @@ def run(pid, tier="quick", seed=1, replay=None):
             results = pool.map(_worker, jobs, chunksize=1)
     tot = _merge(results)
 
+    fuzz_info = run_fuzz_supplement(pid, mod, tier, seed, tot)
+
     for k, (size, kcase, kdetail) in tot["known_cases"].items():
         write_replay(pid, kcase, kdetail, tier, seed, prefix="CAND-" + k)
     if tot["errors"]:
@@ -366,6 +431,8 @@ def run(pid, tier="quick", seed=1, replay=None):
                 low.append("%s: %.4f < %.4f" % (lab, tot["labels"].get(lab, 0) / n, fl))
     wall = time.time() - t0
     extra = dict(pinned=pinned_info, saved_replays=saved, workers=W)
+    if fuzz_info is not None:
+        extra["coverage_guided_supplement"] = fuzz_info
     fin = getattr(mod, "finalize", None)
     if fin is not None:
         extra.update(fin(tot) or {})
